@@ -276,3 +276,17 @@ fn c16_decode_length_mismatch_rejected() {
 
 // (encode with a String-carrying attribute + MI + FP was measured: CBMC runs out of memory after ~10 min —
 // drop glue of the attribute enum; the padding law itself is covered by c16_raw_attribute_len_5/7.)
+
+/// the MESSAGE-INTEGRITY primitive wrapper (stubbed out in the encode obligations above):
+/// hmac_sha1(key, data) is the 20-byte MAC of exactly `data` under exactly `key`
+#[kani::proof]
+#[kani::unwind(24)]
+fn c16_hmac_sha1_wrapper() {
+    let key: [u8; 5] = kani::any();
+    let data: [u8; 7] = kani::any();
+    let got = hmac_sha1(&key, &data);
+    let mut mac = <HmacSha1 as hmac::digest::KeyInit>::new_from_slice(&key).unwrap();
+    mac.update(&data);
+    let want = mac.finalize().into_bytes();
+    assert!(got[..] == want[..]);
+}
